@@ -269,7 +269,8 @@ def typed_args(info: dict, args: list) -> list:
     out = []
     for (p, ty), a in zip(info["params"], args):
         if ty == "Int":
-            out.append(int(a))
+            import numpy as np
+            out.append(np.int64(int(a)))     # behaves like int; also supports .astype in numpy-style code
         elif ty == "Rat":
             f = Fraction(a)
             fl = f.numerator / f.denominator
